@@ -1244,6 +1244,12 @@ func (g *Gen) frameCheck(x *ssa.Return) {
 			}
 			goal = fmt.Sprintf("(forall ((r Int)) (=> %s (= (select %s r) (select %s r))))", and(append([]string{"(select $alloc!0 (rootof r))"}, ex...)...), fin, ini)
 		}
+		if g.con != nil && g.con.NoSafety["frame:"+n] {
+			// `nosafety frame:<heap>`: the frame of ONE heap is not checked for this function (say why in a comment next
+			// to the contract); recorded as an assumption of every property that loads the function
+			g.assumedUsed["frame of heap "+n+" of "+g.name+" switched off by its contract (assumed, not checked)"] = true
+			continue
+		}
 		g.oblige("frame", n, goal, g.pos(x.Pos()), "only the declared modifies targets change", nil)
 	}
 }
